@@ -94,10 +94,23 @@ pub struct Plan {
     pub crash: String,
     #[serde(default)]
     pub crash_steps: Vec<(usize, usize)>,
-    /// entropy faults on the customer's generators: (channel, payment (-1 establish, 9999 close),
-    /// operation "new" | "start" | "close", first draw index, window width) -> all-zero draws
+    /// entropy faults on the customer's generators
     #[serde(default)]
-    pub entropy: Vec<(usize, i32, String, usize, usize)>,
+    pub entropy: Vec<EntropyPlan>,
+}
+
+/// One entropy fault: in channel `chan`, payment `pay` (-1 establish, 9999 close), operation
+/// "new" | "start" | "close", the draws `at .. at+width` return zeros ("zeros") or bytes that
+/// reduce to the close tag ("closetag").
+#[derive(Serialize, Deserialize, Clone, Debug, PartialEq)]
+pub struct EntropyPlan {
+    pub chan: usize,
+    pub pay: i32,
+    pub op: String,
+    pub at: usize,
+    pub width: usize,
+    #[serde(default)]
+    pub kind: String,
 }
 
 // ------------------------------------------------------------------ history
@@ -409,10 +422,17 @@ impl<'a> World<'a> {
     /// The customer's generator for one operation, with the plan's entropy faults applied.
     fn customer_rng(&mut self, chan: usize, pay: i32, op: &str) -> SimRng {
         let mut r = self.rng(chan, pay, &format!("customer/{}", op));
-        for (c, p, o, at, width) in &self.plan.entropy {
-            if *c == chan && *p == pay && o == op {
-                for i in *at..*at + *width {
-                    r.faults.insert(i, EntropyFault::Zeros);
+        for e in &self.plan.entropy {
+            if e.chan == chan && e.pay == pay && e.op == op {
+                for i in e.at..e.at + e.width {
+                    let f = if e.kind == "closetag" {
+                        let mut b = refc::scb(&refc::close_tag()).to_vec();
+                        b.extend_from_slice(&[0u8; 32]);
+                        EntropyFault::Bytes(b)
+                    } else {
+                        EntropyFault::Zeros
+                    };
+                    r.faults.insert(i, f);
                 }
             }
         }
@@ -755,7 +775,9 @@ impl<'a> World<'a> {
             }
         }
         let ctx = ctx_for(self.plan.seed, ci, -1);
+        let mut rng = self.customer_rng(ci, -1, "new");
         let (req, proof) = Requested::new(&mut rng, &m.ccfg, cid, mb, cb, &ctx);
+        self.note_entropy(&rng);
         let pt = atoms::trace(&proof);
         self.chans[ci].cid = Some(cid);
         self.chans[ci].stage = Stage::Requested(req);
